@@ -46,7 +46,7 @@ func isPre(v string) bool { return strings.Contains(v, "-") }
 // pre-releases of a new release line sitting between the lines.
 func genVersions(rt *rapid.T, l, sys string) []string {
 	n := draw(rt, l+".nvers", 2, 1, 2, 3, 3, 4, 4, 5, 6, 8, 12)
-	c := vnum{maj: draw(rt, l+".maj0", 1, 0, 1, 2)}
+	c := vnum{maj: draw(rt, l+".maj0", 1, 0, 1, 2, 1, 0, 1, 2, 1, 199, 150, 200)}
 	str := func(c vnum) string {
 		if sys == "maven" && c.pat == 0 && chance(rt, l+".short", 1, 6) {
 			return fmt.Sprintf("%d.%d", c.maj, c.min)
@@ -325,6 +325,9 @@ func genMavenManifest(rt *rapid.T, u []Pkg, mode string) Manifest {
 				d.V = t
 			}
 		}
+		if mode == "update" && d.V != t && strings.HasPrefix(d.V, "[") && chance(rt, l+".deadrange", 1, 8) {
+			d.V = "[900.0,901.0)" // a range none of the listed versions satisfies
+		}
 		if d.V == t && chance(rt, l+".prop", 1, 4) {
 			// version through a property; now and then a property another dependency already uses
 			shared := false
@@ -581,6 +584,9 @@ func genVulns(rt *rapid.T, w *World, conc bool) []VulnSpec {
 			}
 		}
 		v.Severity = draw(rt, l+".sev", "", "", "high", "low")
+		if len(v.Affected[0].Versions) > 1 && chance(rt, l+".persev", 1, 6) {
+			splitSeverity(&v, rapid.IntRange(1, len(v.Affected[0].Versions)-1).Draw(rt, l+".persev.at"), chance(rt, l+".persev.lowfirst", 1, 2))
+		}
 		v.Withdrawn = chance(rt, l+".withdrawn", 1, 8)
 		out = append(out, v)
 	}
@@ -633,6 +639,9 @@ func genOpts(rt *rapid.T, w *World, maxUpgrades []int, plain, conc bool) Opts {
 	}
 	if plain && !conc && w.Sys == "maven" && w.Mode == "fix" {
 		o.MavenManagement = chance(rt, "mavenmanagement", 1, 4)
+	}
+	if plain && conc {
+		o.MinSeverity = draw(rt, "minseverity", 0.0, 0.0, 0.0, 5.0)
 	}
 	if plain {
 		if conc && len(w.Vulns) > 1 && chance(rt, "hasexplicit", 2, 5) {
@@ -707,6 +716,16 @@ func genOpts(rt *rapid.T, w *World, maxUpgrades []int, plain, conc bool) Opts {
 			}
 			o.Explicit = append(keep, al)
 		}
+	}
+	if len(w.Vulns) > 1 && chance(rt, "aliaspair", 1, 8) {
+		// two records naming each other as alias (the GHSA and the CVE record of one issue)
+		i := rapid.IntRange(0, len(w.Vulns)-1).Draw(rt, "aliaspair.a")
+		j := rapid.IntRange(0, len(w.Vulns)-2).Draw(rt, "aliaspair.b")
+		if j >= i {
+			j++
+		}
+		w.Vulns[i].Aliases = append(w.Vulns[i].Aliases, w.Vulns[j].ID)
+		w.Vulns[j].Aliases = append(w.Vulns[j].Aliases, w.Vulns[i].ID)
 	}
 	o.DevDeps = !chance(rt, "nodev", 1, 4)
 	o.MaxDepth = draw(rt, "maxdepth", -1, -1, -1, 1, 2, 3)
@@ -795,4 +814,17 @@ func hasVersion(p *Pkg, v string) bool {
 		}
 	}
 	return false
+}
+
+// splitSeverity turns the first affected entry into two entries of the same package with
+// different severities and removes the record's top-level severity.
+func splitSeverity(v *VulnSpec, at int, lowFirst bool) {
+	a := v.Affected[0]
+	a1 := Aff{Pkg: a.Pkg, Versions: append([]string(nil), a.Versions[:at]...), Severity: "high"}
+	a2 := Aff{Pkg: a.Pkg, Versions: append([]string(nil), a.Versions[at:]...), Severity: "low", Range: a.Range}
+	if lowFirst {
+		a1.Severity, a2.Severity = "low", "high"
+	}
+	v.Affected = append([]Aff{a1, a2}, v.Affected[1:]...)
+	v.Severity = ""
 }
